@@ -476,6 +476,12 @@ PullFanout(prop, cfg, obs, nst, mine, K) ==
     : a \in {a \in Calls(obs) : FromC(obs, a, K) /\ obs[a].t = "P" /\ LiveAt(obs, K, a)
                 /\ nst.ret[a] <= Len(obs)}}
 
+\* ... and no Pull is forwarded to a member that has completed (by Terminate) before that Pull reaches it
+PullToCompleted(prop, cfg, obs, nst, mine, K) ==
+  {W(prop, "pull_to_completed", b, obs[b].to, cfg, Ctx(cfg, obs, nst, b)) :
+     b \in {b \in Calls(obs) : obs[b].fr = "S" /\ obs[b].to \in mine /\ obs[b].t = "P"
+              /\ \E e \in 1..(b - 1) : FromC(obs, e, obs[b].to) /\ obs[e].t = "T"}}
+
 -----------------------------------------------------------------------------
 \* C08 merge!
 C08(cfg, obs) ==
@@ -498,6 +504,7 @@ C08(cfg, obs) ==
      \cup {W("C08", "greet_not_at_first", b, K, cfg, "") : b \in {b \in kH : ~InsideP(nst.par, b, h)}})
     \cup RelayViol("C08", cfg, obs, nst, mine, K)
     \cup PullFanout("C08", cfg, obs, nst, mine, K)
+    \cup PullToCompleted("C08", cfg, obs, nst, mine, K)
     \cup
     \* completes exactly once, when the last member has completed
     {W("C08", "completion_early", c, K, cfg, "") :
@@ -715,19 +722,24 @@ C12(cfg, obs) ==
       ucalls == {j \in Calls(obs) : obs[j].fr \in US /\ obs[j].to = "S"}
       \* scope of the property for 2+ sinks: the source does not emit from inside a delivery
       plain(j) == ~multi \/ (~(\E i \in ucalls : InsideP(nst.par, j, i)) /\ ~(\E i \in ucalls : InsideP(nst.par, i, j)))
+      \* context for finding F2-attach: before position i some sink attached from inside the fan-out of the
+      \* source's Terminate/Error (it is greeted, but share clears its list when the fan-out is over)
+      cx(i) == IF \E t \in Tops(obs) : t <= i /\ obs[t].t = "attach" /\ nst.par[t] # 0
+                     /\ LET r == RootOf(nst.par, t) IN obs[r].fr \in US /\ IsEndT(obs[r].t)
+               THEN "attach_inside_end_fanout" ELSE ""
   IN
   \* at most one upstream subscription is alive
-  {W("C12", "second_upstream", s, obs[s].to, cfg, "") :
+  {W("C12", "second_upstream", s, obs[s].to, cfg, cx(s)) :
      s \in {s \in Calls(obs) : obs[s].t = "Sub" /\ \E u \in US : alive(u, s)}}
   \cup
   \* it is started when a sink attaches while none is alive (first attach, after the end, after all left)
-  {W("C12", "not_started", t, obs[t].to, cfg, "") :
+  {W("C12", "not_started", t, obs[t].to, cfg, cx(t)) :
      t \in {t \in Tops(obs) : obs[t].t = "attach" /\ ~Panicked(obs) /\ ~(\E u \in US : alive(u, t))
               /\ ~\E s \in t..StepEnd(obs, t) : IsCall(obs[s]) /\ obs[s].t = "Sub"}}
   \cup
   \* every attached sink receives every datum and the termination emitted while it is attached
   UNION {
-    {W("C12", IF obs[j].t = "D" THEN "missed_datum" ELSE "missed_end", j, K, cfg, "") :
+    {W("C12", IF obs[j].t = "D" THEN "missed_datum" ELSE "missed_end", j, K, cfg, cx(j)) :
        K \in {K \in KS : attached(K, j) /\ ~DisposedBefore(obs, K, nst.ret[j])
                 /\ ~\E b \in j..nst.ret[j] : ToC(obs, b, K) /\ obs[b].t = obs[j].t /\ obs[b].v = obs[j].v
                                              /\ nst.par[b] = j}}
@@ -741,8 +753,8 @@ C12(cfg, obs) ==
                     /\ InsideP(nst.par, b, a)}
     IN IF others = {}
        THEN (IF (\E u \in US : alive(u, a) /\ UGreetedBefore(obs, u, a)) /\ stops = {}
-             THEN {W("C12", "upstream_not_disposed", a, K, cfg, "")} ELSE {})
-       ELSE {W("C12", "upstream_disposed_early", b, K, cfg, "") : b \in stops}
+             THEN {W("C12", "upstream_not_disposed", a, K, cfg, cx(a))} ELSE {})
+       ELSE {W("C12", "upstream_disposed_early", b, K, cfg, cx(b)) : b \in stops}
     : a \in {a \in Calls(obs) : obs[a].fr \in KS /\ obs[a].to = "S" /\ IsEndT(obs[a].t)
                /\ LiveAt(obs, obs[a].fr, a) /\ nst.ret[a] <= Len(obs)
                /\ (~multi \/ ~\E i \in ucalls : InsideP(nst.par, a, i) /\ \E i2 \in ucalls : InsideP(nst.par, i2, i))}}
